@@ -222,6 +222,19 @@ def run(tier, seed, replay):
         chk.report_violation("C08.bounded.formats", {"property": "C08", "obligation": "C08.bounded.formats",
                                                      "replay": v["task"], "confirmed_on_real_code": True},
                              what=v["what"], confirmed=True)
+    # the comparator laws above speak about Error.__lt__: Errors.__iter__ has to sort with it (a
+    # key= function would be another order, to be proved separately)
+    import ast as _ast
+    itf = chk.repo.find_function(SE.ERR + ":Errors.__iter__")
+    sorts = [x for x in _ast.walk(itf.node) if isinstance(x, _ast.Call) and
+             ((isinstance(x.func, _ast.Attribute) and x.func.attr == "sort") or (isinstance(x.func, _ast.Name) and x.func.id == "sorted"))]
+    other_calls = [_ast.unparse(x.func) for x in _ast.walk(itf.node) if isinstance(x, _ast.Call) and x not in sorts
+                   and _ast.unparse(x.func) not in ("iter", "list", "tuple")]
+    ok = len(sorts) == 1 and not sorts[0].keywords and not other_calls
+    chk.frame("frame.Errors.__iter__.sorts_with_the_element_comparison", ok,
+              {"sort_calls": [_ast.unparse(x) for x in sorts], "other_calls": other_calls},
+              what=f"Errors.__iter__ does not simply sort with Error.__lt__ ({[_ast.unparse(x) for x in sorts]}, other calls "
+                   f"{other_calls}): the proved comparator laws no longer describe the listed order")
     # ---------------------------------------------------------------- 5. positions lie inside the file (bounded)
     from .frames_common import sample_files
     t0 = time.time()
